@@ -155,8 +155,10 @@ class Effects:
             out.append((s, chain))
         for c in self.calls.get(k, []):
             via = c.data.get('via')
+            from .terms import Sym as _S2
+            on_self = via == 'method' and c.data.get('recv') == _S2(selfname)
             for t in c.data.get('targets', []):
-                if via in ('super', 'ctor'):
+                if via in ('super', 'ctor') or on_self:
                     out.extend(self._ctor_writes(t, chain + (self.key(t),), seen))
                 else:
                     out.extend([(w, chain + ch) for w, ch in self.trans_writes(t)])
